@@ -49,7 +49,7 @@ PROPS["C01"] = dict(
               dict(mode="filter", fuzz=True, secs=300, jobs=8, max_len=512, dict="fuzz/tokener_parse_ex.dict"),
               dict(mode="grammar", fuzz=True, secs=300, jobs=8, max_len=2048)],
     min_labels=dict(quick=dict(escape=20000, surrogate=8000, non_integer=20000, boundary_int=5000, midpoint_number=3000,
-                               dup_key=1000, nesting_ge2=10000, nesting_ge20=20, huge_int=500, wide_container=3000, long_string=1500)),
+                               dup_key=1000, nesting_ge2=10000, nesting_ge20=20, huge_int=500, wide_container=3000, long_string=800)),
     assumptions=["nesting depth <= 31 (default limit; other limits belong to C15)", "texts <= ~6 KiB",
                  "member names containing U+0000 are excluded while the known finding nul-in-member-name is listed"],
 )
